@@ -46,7 +46,7 @@ REGISTRY = dict(
          "output classification), `erg --mode parse` as the arbiter of syntactic validity outside the operator "
          "sub-fragment, the C11 models (ExprParse) for the round-trip theorem. The stack model is tied to erg only by "
          "comparing its maximal stack depth with the depth of the emitted bytecode (CPython's dis.stack_effect) on "
-         "expression-fragment programs. Hang = 60 s of CPU time (RLIMIT_CPU, twice the property's 30 s), re-established alone, or no exit within 90 s x load. A stack "
+         "expression-fragment programs. Hang = 60 s of CPU time (RLIMIT_CPU, twice the property's 30 s), re-established alone (a wall-clock limit of max(600 s, 300 s x load per core) only guards against a sleeping process). A stack "
          "overflow has no location: the check re-runs it under gdb and names the recursion cycle.",
     technique="Coq-proved input validity + reference checker; crash detection by differential execution",
     design="DESIGN.md §4 C07")
@@ -203,7 +203,7 @@ def run(ctx):
                        "accounting, tied to erg only through the maximal stack depth of expression-fragment programs",
                        "no theorem covers erg's type checker: absence of crashes there is observed, not proved",
                        "a hang is 60 s of CPU time (RLIMIT_CPU; twice the 30 s of the property text, to be robust on a loaded machine), "
-                       "re-established by running the command alone, or no exit within 90 s scaled by the 1-minute load per core"]
+                       "re-established by running the command alone; wall-clock limit max(600 s, 300 s x load per core) for a sleeping process"]
     # ---- translators
     try:
         sites = S.scan(REPO)
@@ -244,12 +244,16 @@ def classify(model, o):
 
 
 def crash_fails(runner, cmd_levels, sig):
-    """predicate for shrinking: the text still crashes at the same site"""
+    """predicate for shrinking: the text still crashes at the same site (for a stack overflow / a hang, whose site needs a
+    gdb re-run, only the kind is compared while shrinking; the site of the result is established again at the end)"""
+    coarse = sig.startswith("signal:stack-overflow") or sig.startswith("hang:")
+    want = ":".join(sig.split(":")[:2]) if coarse else sig
+
     def fails(src):
         if not runner.parses(src):
             return False
-        r = runner.run_one("shrink%d" % os.getpid(), src, levels=cmd_levels)
-        return sig in r.sigs()
+        r = runner.run_one("shrink%d" % os.getpid(), src, levels=cmd_levels, resolve=not coarse)
+        return any((s.startswith(want) if coarse else s == want) for s in r.sigs())
     return fails
 
 
@@ -267,11 +271,11 @@ def shrink_case(ctx, runner, c, sig):
         small = G.shrink(c.prog, tree_fails, budget=budget)
         M.fix_block_ends(small)
         src = M.to_erg(small, c.U)
-        if fails(src):
+        if fails(src) and sig in runner.run_one("confirm%d" % os.getpid(), src, levels=lv).sigs():
             return Case(c.kind, c.label + " (shrunk)", src, small, c.U)
         return c
     src = M.shrink_text(c.src, fails, budget=budget)
-    if src != c.src and fails(src):
+    if src != c.src and sig in runner.run_one("confirm%d" % os.getpid(), src, levels=lv).sigs():
         return Case(c.kind, c.label + " (shrunk)", src)
     return c
 
